@@ -247,6 +247,10 @@ func (p *Pipe) Write(b []byte) (int, error) {
 	return len(b), nil
 }
 
+// Heal ends the injected write failure: later writes succeed again (a
+// destination that failed once, e.g. on an expired write deadline).
+func (p *Pipe) Heal() { p.wfailed, p.WFailAt = false, -1 }
+
 // WriteFailed reports whether the injected write failure has fired.
 func (p *Pipe) WriteFailed() bool { return p.wfailed }
 
